@@ -349,10 +349,10 @@ const c04TenYears = 10 * 365 * 24 * time.Hour
 
 // window ids: 0 none, 1 expired 10y ago, 2 not active for 10y, 3 [-10y,+10y]
 func c04RealDlg(iss, aud, sub, win int) *delegation.Token {
-	return c04RealDlgM(iss, aud, sub, win, c04TenYears)
+	return c04RealDlgM(iss, aud, sub, win, c04TenYears, "/a")
 }
 
-func c04RealDlgM(iss, aud, sub, win int, margin time.Duration) *delegation.Token {
+func c04RealDlgM(iss, aud, sub, win int, margin time.Duration, cmd string) *delegation.Token {
 	var opts []delegation.Option
 	switch win {
 	case 1:
@@ -362,14 +362,20 @@ func c04RealDlgM(iss, aud, sub, win int, margin time.Duration) *delegation.Token
 	case 3:
 		opts = append(opts, delegation.WithNotBeforeIn(-margin), delegation.WithExpirationIn(margin))
 	}
-	return mustDlg(iss, aud, sub, "/a", nil, opts...)
+	return mustDlg(iss, aud, sub, cmd, nil, opts...)
 }
+
+// c04Cmds: the command carried by every token of a real-clock case. /ucan/revoke is the command of the
+// revocation specification, / the top command: the time bounds hold whatever is being invoked.
+var c04Cmds = []string{"/a", "/ucan/revoke", "/ucan/revoke/now", "/"}
 
 type c04RealCase struct {
 	Wins   []int `json:"wins"`
 	Inv    int   `json:"inv"` // 0 none, 1 expired, 3 valid
 	Iat    int   `json:"iat"` // issue time of the invocation: 0 absent, 1 now (constructor default), 2 twenty years ago, 3 in twenty years
 	Layout int   `json:"layout"`
+	Cmd    int   `json:"cmd"`     // index into c04Cmds
+	Self   bool  `json:"self"`    // empty proof list only: the invoker is the subject itself
 }
 
 func (c *c04RealCase) Weight() int { return len(c.Wins) }
@@ -384,12 +390,26 @@ func c04RealSubZ(name, dir string, qn, tn int, zone *time.Location, margin time.
 	return &engine.Sub{
 		Name:   name,
 		Serial: zone != time.UTC,
-		Rule:   "[process time zone " + zone.String() + ", bounds " + margin.String() + " away from now] real ExecutionAllowed (wall clock), every principal layout, with every assignment of {no bound, expired 10y ago, active in 10y, [-10y,+10y]} to each link and {none, expired, valid} to the invocation, whose issue time (iat) is absent, now, 20 years ago or in 20 years (it is not a validity bound and must not move the instant of the check); verdict cannot depend on when the check runs; non-trivial = exactly one invalid element or none",
+		Rule:   "[process time zone " + zone.String() + ", bounds " + margin.String() + " away from now] real ExecutionAllowed (wall clock), every principal layout, with every assignment of {no bound, expired 10y ago, active in 10y, [-10y,+10y]} to each link and {none, expired, valid} to the invocation, whose issue time (iat) is absent, now, 20 years ago or in 20 years (it is not a validity bound and must not move the instant of the check); the command of all tokens is /a and - for chains of up to 2 links - also /ucan/revoke, /ucan/revoke/now and /; invocations without any proof (issued by the subject itself or by someone else; expired or not) are included and never allowed; verdict cannot depend on when the check runs; non-trivial = exactly one invalid element or none",
 		Bound: func(t string) string {
 			return fmt.Sprintf("chains of 1..%d links, 4 windows per link, 3 invocation expiry settings x 4 issue times", tierN(t, qn, tn))
 		},
 		Setup: func(string) error { chainInit(); time.Local = zone; return nil },
 		Gen: func(tier string, emit func(any) bool) {
+			if dir == "sound" {
+				// empty proof lists: never allowed anyway (C01); in particular not when the invocation has expired
+				for _, iv := range []int{0, 1, 3} {
+					for iat := 0; iat < 4; iat++ {
+						for cmd := range c04Cmds {
+							for _, self := range []bool{true, false} {
+								if !emit(&c04RealCase{Wins: []int{}, Inv: iv, Iat: iat, Cmd: cmd, Self: self}) {
+									return
+								}
+							}
+						}
+					}
+				}
+			}
 			for n := 1; n <= tierN(tier, qn, tn); n++ {
 				idx := make([]int, n)
 				for {
@@ -399,8 +419,13 @@ func c04RealSubZ(name, dir string, qn, tn int, zone *time.Location, margin time.
 								if lay > 0 && iat > 1 {
 									continue
 								}
-								if !emit(&c04RealCase{Wins: append([]int{}, idx...), Inv: iv, Iat: iat, Layout: lay}) {
-									return
+								for cmd := range c04Cmds {
+									if cmd > 0 && (n > 2 || iat > 1) {
+										continue
+									}
+									if !emit(&c04RealCase{Wins: append([]int{}, idx...), Inv: iv, Iat: iat, Layout: lay, Cmd: cmd}) {
+										return
+									}
 								}
 							}
 						}
@@ -430,7 +455,7 @@ func c04RealSubZ(name, dir string, qn, tn int, zone *time.Location, margin time.
 			where := ""
 			for i := 0; i < n; i++ {
 				ld.cids = append(ld.cids, cidPool[i])
-				ld.toks = append(ld.toks, c04RealDlgM(layoutHolder(cs.Layout, n, i+1), layoutHolder(cs.Layout, n, i), 0, cs.Wins[i], margin))
+				ld.toks = append(ld.toks, c04RealDlgM(layoutHolder(cs.Layout, n, i+1), layoutHolder(cs.Layout, n, i), 0, cs.Wins[i], margin, c04Cmds[cs.Cmd]))
 				prf[i] = cidPool[i]
 				if cs.Wins[i] == 1 || cs.Wins[i] == 2 {
 					invalid++
@@ -468,7 +493,18 @@ func c04RealSubZ(name, dir string, qn, tn int, zone *time.Location, margin time.
 			case 3:
 				opts = append(opts, invocation.WithExpirationIn(margin))
 			}
-			inv, err := invocation.New(prin(layoutHolder(cs.Layout, n, 0)), prin(0), "/a", prf, opts...)
+			invoker := layoutHolder(cs.Layout, n, 0)
+			if n == 0 {
+				invalid++ // no proof at all
+				where = "empty-proof-list"
+				if cs.Inv == 1 {
+					where = "expired-invocation/empty-proof-list"
+				}
+				if !cs.Self {
+					invoker = 1
+				}
+			}
+			inv, err := invocation.New(prin(invoker), prin(0), commandOf(c04Cmds[cs.Cmd]), prf, opts...)
 			if err != nil {
 				panic(err)
 			}
@@ -482,7 +518,7 @@ func c04RealSubZ(name, dir string, qn, tn int, zone *time.Location, margin time.
 			ctx.Outcome(errLabel(e1))
 			for _, e := range []error{e1, e2} {
 				if dir == "sound" && e == nil && invalid > 0 {
-					ctx.Failf(cs, "real-clock/time-not-enforced@"+where, "ExecutionAllowed allowed a chain whose %s is expired / not yet active (wins=%v inv=%d iat=%d)", where, cs.Wins, cs.Inv, cs.Iat)
+					ctx.Failf(cs, "real-clock/time-not-enforced@"+where, "ExecutionAllowed allowed a chain whose %s is expired / not yet active (wins=%v inv=%d iat=%d cmd=%s self-issued=%v)", where, cs.Wins, cs.Inv, cs.Iat, c04Cmds[cs.Cmd], cs.Self)
 				}
 				if dir == "complete" && e != nil && invalid == 0 {
 					ctx.Failf(cs, "real-clock/denied-valid:"+errLabel(e), "ExecutionAllowed denied a chain whose tokens are all valid now (wins=%v inv=%d iat=%d): %v", cs.Wins, cs.Inv, cs.Iat, e)
